@@ -144,6 +144,7 @@ class ComponentLevel2( ComponentLevel1 ):
         if current_idx == "*": # special case, materialize all objects
           if isinstance( obj, NamedObject ): # Signal[*] is the signal itself
             objs.add( obj )
+            partial.add( obj )
           else:
             for i, child in enumerate( obj ):
               expand_array_index( child, name_depth, node_depth, idx_depth+1, idx )
@@ -224,7 +225,8 @@ class ComponentLevel2( ComponentLevel1 ):
       # Now we turn names into actual objects
       for obj_name, nodelist, op in names:
         if obj_name[0][0] == "s":
-          objs = set()
+          objs    = set()
+          partial = set() # signals accessed as s.x[i] with a variable i
           lookup_variable( s, 1, 1 )
 
           if not is_write or not objs:
@@ -264,7 +266,8 @@ class ComponentLevel2( ComponentLevel1 ):
 
 
             for x in objs:
-              if not x.is_top_level_signal():
+              # s.x[i] and s.x[i:i+2] with a variable i are parts of s.x, too
+              if not x.is_top_level_signal() or x in partial:
                 raise UpdateFFNonTopLevelSignalError( s, func, nodelist[0].lineno )
 
               x._dsl.needs_double_buffer = True
